@@ -53,4 +53,26 @@ def build():
          requires=PRE,
          ensures=[E('target', 'final(world).comp::<C>()@ == lazy_put(old(world).comp::<C>()@, &old(world).ents(), entity, component)'),
                   E('wf', 'final(world).comp::<C>().wf() && final(world).ents() == old(world).ents()')])
+    # ---- the eager builders' `with` (src/world/mod.rs, src/world/entity.rs): the component goes to the builder's OWN entity.
+    # N23-style lifting: the builder is {entity, world, built}; `with` hands it back unchanged, so the function is checked as a function of
+    # (world, entity, c) — `self.world` -> `world`, `self.entity` -> `entity`, the trailing `self` dropped (a by-value `self` holding the
+    # N3 `&mut World` could not be reborrowed without `mut self`, which Verus lacks)
+    M = 'src/world/mod.rs'
+    u.files = u.files + [M]
+    u.fn(M, ["impl<'a> Builder for EntityBuilder<'a>", 'fn with'], props='C01 C03 C04', free='entity_builder_with', key='EntityBuilder::with(lifted)',
+         rules=[('N23', r'fn with<T: Component>\(self, c: T\) -> Self', 'fn with<T: Component>(world: &mut World, entity: Entity, c: T)'),
+                ('N10', r'SystemData::fetch\(self\.world\)', 'fetch_write_storage(world)'), ('N23', r'self\.entity', 'entity'),
+                ('N23', r'\}\s*self\s*\}\s*$', '} }')],
+         requires=[E('wf', 'old(world).comp::<T>().wf()'), E('ents', 'ent_ok(&old(world).ents())'),
+                   E('own', 'live(&old(world).ents(), entity)')],
+         ensures=[E('target', 'final(world).comp::<T>()@ == old(world).comp::<T>()@.insert(entity.0, c)'),
+                  E('wf', 'final(world).comp::<T>().wf() && final(world).ents() == old(world).ents()')])
+    F = 'src/world/entity.rs'
+    u.fn(F, ["impl<'a> EntityResBuilder<'a>", 'fn with'], props='C01 C03 C04', free='entity_res_builder_with', key='EntityResBuilder::with(lifted)',
+         rules=[('N23', r'fn with<T: Component>\(self, c: T, storage: &mut WriteStorage<T>\) -> Self',
+                 "fn with<'e, 'd, T: Component>(entity: Entity, c: T, storage: &mut Storage<'e, T, &'d mut MaskedStorage<T>>)"),
+                ('N23', r'self\.entity', 'entity'), ('N23', r';\s*self\s*\}\s*$', '; }')],
+         requires=[E('wf', 'old(storage).data.wf()'), E('ents', 'ent_ok(old(storage).entities)'), E('own', 'live(old(storage).entities, entity)')],
+         ensures=[E('target', 'final(storage).data@ == old(storage).data@.insert(entity.0, c)'),
+                  E('wf', 'final(storage).data.wf()')])
     return u
